@@ -40,7 +40,8 @@ def check_case(ctx, case):
         return
     i = case["position"]
     new = copy.deepcopy(case)
-    new["mods"][i] = dict(new["mods"][i], word=case["replacement"])
+    new["mods"][i] = dict(new["mods"][i], word=case["replacement"], feats=case.get("replacement_feats", []),
+                          refs=case.get("replacement_refs", []))
     r1, p1, _ = impl.run_asm(asm.asm_op(new))
     if r1.split("\t")[0] != "ok":
         ctx.fail("replacing module {} by a valid module with the same overhangs makes the assembly fail: {}".format(
@@ -102,6 +103,14 @@ def run(ctx):
             wd = gen.rot(wd, rng.randrange(len(wd)))
         if rng.random() < 0.1:
             wd = wd.lower()
+        if rng.random() < 0.25:
+            # a well-documented replacement: a long reference list, features citing its last entries
+            L = rng.randint(10, 13)
+            case["replacement_refs"] = rng.sample(range(200, 240), L)
+            n2 = len(wd)
+            case["replacement_feats"] = [[1, "u5%d" % j, ["i%d" % rng.randint(max(1, L - 2), L)],
+                                          [[a, min(n2, a + rng.randint(1, 6)), 1]]]
+                                         for j, a in enumerate(rng.sample(range(n2 - 1), min(2, n2 - 1)))]
         case["position"] = i
         case["replacement"] = wd
         case["expected_segment"] = d2["o5"] + d2["t"]
